@@ -19,7 +19,7 @@ namespace Votca.C15
 /-- exchanging the two sites (`a ↦ -a`) leaves the energy unchanged: all 9×9 blocks at once -/
 theorem energy_exchange (x y z f s : Rat) (A B : Q9) :
     energy x y z f s A B = energy (-x) (-y) (-z) f s B A := by
-  simp only [energy, dot, vSite]
+  simp only [energy, dot, vSite, Gen.EE.g0, Gen.EE.g1, Gen.EE.g2, Gen.EE.g3, Gen.EE.g4, Gen.EE.c0x, Gen.EE.c0y, Gen.EE.c0z, Gen.EE.c1x, Gen.EE.c1y, Gen.EE.c1z, Gen.EE.c2x, Gen.EE.c2y, Gen.EE.c2z, Gen.EE.c3x, Gen.EE.c3y, Gen.EE.c3z, Gen.EE.c4x, Gen.EE.c4y, Gen.EE.c4z, Gen.EE.m00, Gen.EE.m10, Gen.EE.m11, Gen.EE.m20, Gen.EE.m21, Gen.EE.m22, Gen.EE.m30, Gen.EE.m31, Gen.EE.m32, Gen.EE.m33, Gen.EE.m40, Gen.EE.m41, Gen.EE.m42, Gen.EE.m43, Gen.EE.m44]
   ring
 
 /-- the same for the code's rank gating: `CalcStaticEnergy_site(A,B) = CalcStaticEnergy_site(B,A)` for all nine rank
@@ -40,18 +40,18 @@ theorem energySite_exchange (x y z f s : Rat) (r1 r2 : Nat) (Q1 Q2 : Q9) (h1 : g
 /-- two charges: `q₁ q₂ / R` -/
 theorem charges (x y z f s qa qb : Rat) :
     energy x y z f s ⟨qa, 0, 0, 0, 0, 0, 0, 0, 0⟩ ⟨qb, 0, 0, 0, 0, 0, 0, 0, 0⟩ = qa * qb * f := by
-  simp only [energy, dot, vSite]; ring
+  simp only [energy, dot, vSite, Gen.EE.g0, Gen.EE.g1, Gen.EE.g2, Gen.EE.g3, Gen.EE.g4, Gen.EE.c0x, Gen.EE.c0y, Gen.EE.c0z, Gen.EE.c1x, Gen.EE.c1y, Gen.EE.c1z, Gen.EE.c2x, Gen.EE.c2y, Gen.EE.c2z, Gen.EE.c3x, Gen.EE.c3y, Gen.EE.c3z, Gen.EE.c4x, Gen.EE.c4y, Gen.EE.c4z, Gen.EE.m00, Gen.EE.m10, Gen.EE.m11, Gen.EE.m20, Gen.EE.m21, Gen.EE.m22, Gen.EE.m30, Gen.EE.m31, Gen.EE.m32, Gen.EE.m33, Gen.EE.m40, Gen.EE.m41, Gen.EE.m42, Gen.EE.m43, Gen.EE.m44]; ring
 
 /-- a charge at A and a dipole `μ` at B (`a` from A to B): `-q (a·μ)/R²` -/
 theorem charge_dipole (x y z f s q mx my mz : Rat) :
     energy x y z f s ⟨q, 0, 0, 0, 0, 0, 0, 0, 0⟩ ⟨0, mx, my, mz, 0, 0, 0, 0, 0⟩ = -(q * (x * mx + y * my + z * mz) * (f * f)) := by
-  simp only [energy, dot, vSite]; ring
+  simp only [energy, dot, vSite, Gen.EE.g0, Gen.EE.g1, Gen.EE.g2, Gen.EE.g3, Gen.EE.g4, Gen.EE.c0x, Gen.EE.c0y, Gen.EE.c0z, Gen.EE.c1x, Gen.EE.c1y, Gen.EE.c1z, Gen.EE.c2x, Gen.EE.c2y, Gen.EE.c2z, Gen.EE.c3x, Gen.EE.c3y, Gen.EE.c3z, Gen.EE.c4x, Gen.EE.c4y, Gen.EE.c4z, Gen.EE.m00, Gen.EE.m10, Gen.EE.m11, Gen.EE.m20, Gen.EE.m21, Gen.EE.m22, Gen.EE.m30, Gen.EE.m31, Gen.EE.m32, Gen.EE.m33, Gen.EE.m40, Gen.EE.m41, Gen.EE.m42, Gen.EE.m43, Gen.EE.m44]; ring
 
 /-- two dipoles: `(μ₁·μ₂ - 3 (a·μ₁)(a·μ₂))/R³` -/
 theorem dipole_dipole (x y z f s ax ay az bx «by» bz : Rat) :
     energy x y z f s ⟨0, ax, ay, az, 0, 0, 0, 0, 0⟩ ⟨0, bx, «by», bz, 0, 0, 0, 0, 0⟩ =
       (ax * bx + ay * «by» + az * bz - 3 * (x * ax + y * ay + z * az) * (x * bx + y * «by» + z * bz)) * (f * f * f) := by
-  simp only [energy, dot, vSite]; ring
+  simp only [energy, dot, vSite, Gen.EE.g0, Gen.EE.g1, Gen.EE.g2, Gen.EE.g3, Gen.EE.g4, Gen.EE.c0x, Gen.EE.c0y, Gen.EE.c0z, Gen.EE.c1x, Gen.EE.c1y, Gen.EE.c1z, Gen.EE.c2x, Gen.EE.c2y, Gen.EE.c2z, Gen.EE.c3x, Gen.EE.c3y, Gen.EE.c3z, Gen.EE.c4x, Gen.EE.c4y, Gen.EE.c4z, Gen.EE.m00, Gen.EE.m10, Gen.EE.m11, Gen.EE.m20, Gen.EE.m21, Gen.EE.m22, Gen.EE.m30, Gen.EE.m31, Gen.EE.m32, Gen.EE.m33, Gen.EE.m40, Gen.EE.m41, Gen.EE.m42, Gen.EE.m43, Gen.EE.m44]; ring
 
 /-- the field accumulated on the polarisable site is the derivative of the pair energy in that site's dipole: the energy is
 affine in the dipole with exactly these coefficients -/
